@@ -14,7 +14,7 @@ from .spirv_enums import ranges
 from .kani_masks import mask_decls, all_bits
 
 
-def emit(g, enums=None, masks=None, with_alias=True, from_u32=True):
+def emit(g, enums=None, masks=None, with_alias=True, from_u32=True, with_num=False):
     """emit `pub mod spirv { … }`. enums/masks: None = all."""
     src = Source.get(SPIRV)
     g.raw("pub mod spirv {")
@@ -36,6 +36,9 @@ def emit(g, enums=None, masks=None, with_alias=True, from_u32=True):
         rs = ranges([v for _, v in vs])
         cond = " || ".join(("n == %d" % a) if a == b else ("(%d <= n && n <= %d)" % (a, b)) for a, b in rs)
         g.raw("pub open spec fn declared_%s(n: u32) -> bool { %s }" % (T, cond))
+        if with_num:
+            g.raw("// the number of a value (`v as u32`), opaque: big queries never see the cast\n"
+                  "#[verifier::opaque]\npub open spec fn num_%s(v: %s) -> u32 { v as u32 }" % (T, T))
         if from_u32:
             g.raw("impl %s {\n"
                   "    // contract discharged on the real body by unit spirv_enums\n"
